@@ -254,7 +254,7 @@ def rule_pairing(chk):
 
 def rule_file(chk):
     from . import c10
-    c10.rule_line(chk, prefix="C16")
+    c10.rule_line(chk, prefix="C16", flush=False)
     ctx = chk.ctx
     cls = ctx.cls("_output", "FileDestination")
     muts = []
